@@ -133,7 +133,9 @@ def gen_datetime(rng):
     elif k < 0.16:
         p = rng.randrange(len(s))
         s = s[:p] + rng.choice(['', 'x', ' ', '-', '0', 'T', ':', '\x00', 'é']) + s[p + (1 if rng.random() < 0.5 else 0):]
-    elif k < 0.18:
+    elif k < 0.2:
+        s = rng.choice(['+-', '-+', '++', '--', '+ ', '- ', '+x', '-.']) + s.lstrip('+-')      # malformed sign in front of the year
+    elif k < 0.22:
         s = rng.choice(['', 'Z', 'T', '2024', '2024-01-01', '2024-01-01T00:00Z', '2024-01-01 00:00:00Z', '20240101T000000Z', '2024-1-1T0:0:0Z', '99-01-01T00:00:00Z',
                         '+2024-01-01T00:00:00Z', '-0000-01-01T00:00:00Z', '02024-01-01T00:00:00Z', '12345-01-01T00:00:00Z', '2024-01-01T00:00:00.Z', '2024-01-01T00:00:00.5.5Z'])
     return s
